@@ -79,9 +79,10 @@ def check_case(ctx, c, r, m, msc, dis):
     t = math.tan(c.angle)
     t_impl = fl(r["tan"][0][0])
     xc = fl(r["axes"][0][4])
-    if abs(t_impl - t) > 4 * 2.0 ** -24 * t or abs(xc - (n - 1) / 2) > 1e-5:
+    xc_want = (n - 1) / 2 + getattr(c, "shx", 0.0)       # Ruler::zerobin of the position axis shifted by ShiftX cells
+    if abs(t_impl - t) > 4 * 2.0 ** -24 * t or abs(xc - xc_want) > 1e-4:
         ctx.violation("impl-oracle", "tan(angle) / zero bin differ", case=c.replay(), observed=[t_impl, xc],
-                      expected=[t, (n - 1) / 2], sig=dict(sig0, clause="rf-parameters"))
+                      expected=[t, xc_want], sig=dict(sig0, clause="rf-parameters"))
     pred = [parse_q(v) for v in m["pred"][0]]
     g0 = [Fraction(v) for v in c.data]
     rows = 0
@@ -101,7 +102,7 @@ def check_case(ctx, c, r, m, msc, dis):
             n0, n1, _, _ = hc.row_moments(g2, n, x)
             tol = 32 * n * EPS * (ab / abs(m0))      # <= 16 roundings per cell and kick, lever arm n
             got = n1 / n0 - m1 / m0 if n0 != 0 else None
-            lit = t * (x - (n - 1) / 2) - W[x]       # independent of the implementation's own W and offsets
+            lit = t * (x - xc_want) - W[x]            # independent of the implementation's own W, offsets and zero bin
             littol = float(tol) + wtol + 4 * n * 2.0 ** -24
             bad = got is None or abs(got - pred[x]) > tol or abs(float(got) - lit) > littol or abs(n0 - m0) > tol * abs(m0)
             if bad:
